@@ -232,6 +232,25 @@ def zero_guards(prog, rep):
         run.run({(names.index("size") + 1, (("f", 0),)): (0, 0)})
         got = run.ret_sub.get((("f", fidx["remaining_y"]),))
         good = got == (0, 0)
+    if not good:
+        # the interval domain does not see through Option combinators; decide the same on the path summaries: every path
+        # of new() that has not established 0 < size.width stores the constant 0 in remaining_y
+        try:
+            from mirq.origin import mk_field
+            szp = [i + 1 for i, nm_ in enumerate(names) if nm_ == "size"]
+            summs = Paths(prog, inline=lambda g: prog.is_new(g)).of(nw)
+            okp = bool(summs) and bool(szp)
+            for sm in summs:
+                w = ("field", ("param", szp[0], "size"), 0)
+                if holds(sm.facts, ("lt", ("const", 0), w)) or holds(sm.facts, ("ne", w, ("const", 0))):
+                    continue
+                v = strip_refs(mk_field(strip_refs(sm.ret), fidx["remaining_y"]))
+                if v != ("const", 0):
+                    okp = False
+            if okp:
+                good, got = True, (0, 0)
+        except Unsupported:
+            pass
     rep.check(good, "R08.5", "ContiguousPixels::new", "remaining_y must be 0 whenever size.width is 0 (prevents the underflow of `width - 1` in next()); the interval analysis of new() with size.width = 0 gives remaining_y in %s" % fmt(got), at=nw.span, fn=nw.path)
     # iterator::contiguous::Cropped::next: uses of self.iter are behind the emptiness test
     CR = "embedded_graphics::iterator::contiguous::Cropped"
